@@ -127,3 +127,22 @@ def hasattr_true(names):
 
 def make_interp(P, hooks=True, deriv=True):
     return W.make_interp(P, hooks=hooks)
+
+
+def registered_modifiers(I, mr, candidates=()):
+    """names a Modifier_Registry offers: the keys of the one dictionary it holds (its only public accessor is [name]);
+    every candidate name is also asked for through [name]"""
+    dicts = [v for v in mr.attrs.values() if isinstance(v, DictV)]
+    if len(dicts) != 1:
+        raise AnalysisError("Modifier_Registry holds %d dictionaries (expected the one table of modifiers)" % len(dicts))
+    names = set(k.v for k, _ in dicts[0].items.values())
+    from .symeval import RaiseSignal
+    for c in candidates:
+        try:
+            I.getitem(mr, Const(c))
+            ok = True
+        except RaiseSignal:
+            ok = False
+        if ok != (c in names):
+            raise AnalysisError("Modifier_Registry[%r] disagrees with its table" % c)
+    return names
